@@ -135,6 +135,9 @@ func GetExtendedSpatialIdsWithinRadiusOfLine(startPoint *object.Point, endPoint 
 
 			// Put idConvex into measure's ConvexHulls[1]
 			measure1.ConvexHulls[1] = idConvex
+			// GJK starts from the direction left by the previous measurement; reset it so that the measured
+			// distance of a voxel does not depend on which voxel was measured before it (the order is random)
+			measure1.Direction = mgl64.Vec3{}
 
 			// Measure the distance between the line (ConvexHull[0]) and the
 			// SpatialIDs vertex vectors (ConvexHull[1])
